@@ -32,8 +32,9 @@ def evaluate(pid, tier, tree, seed=0, write=False, skip_a3=False):
     try:
         mod.run(tree, rep, tier)
     except AnalysisError as e:
-        # a violation already established stands, even if a later rule could not be evaluated on this tree
-        if not rep.violations:
+        # a violation already established stands, even if a later rule could not be evaluated on this tree (a listed known finding
+        # is not one: with nothing new established, "cannot decide" must stay "cannot decide")
+        if not rep.unlisted():
             raise
         rep.extra["incomplete"] = "evaluation stopped early: %s" % e
     return rep, mod
@@ -53,7 +54,7 @@ def run_property(pid, tier, seed=0, write=True, tree=None):
             st = selftest.run_for(pid, tree, base_rep=rep)
             rep.extra["selftest"] = st["summary"]
             selftest_lines = st["lines"]
-            if st["failed"] and not rep.violations:
+            if st["failed"] and not rep.unlisted():
                 # the checker itself is wrong on this tree; never a silent pass
                 for l in selftest_lines:
                     print(l)
